@@ -344,6 +344,15 @@ func fnSetRange(ctx *cmdContext, args map[string]any) (output respValue, err err
 	offset := args["offset"].(int64)
 	value := args["value"].(string)
 
+	if offset < 0 {
+		output.data = respErrorString("ERR offset is out of range")
+		return
+	}
+	if offset > 512*1024*1024 || offset+int64(len(value)) > 512*1024*1024 {
+		output.data = respErrorString("ERR string exceeds maximum allowed size (512MB)")
+		return
+	}
+
 	result := ctx.dsc.setRange(key, int(offset), value)
 	output.data = result.data
 	return
